@@ -289,6 +289,18 @@ func (c *FITToCSVConv) printHeader() {
 	c.buf.Reset()
 }
 
+// writeCell writes a name or units cell. A cell containing the separator or a quote is quoted (quotes doubled),
+// so that it stays one column: e.g. record.compressed_speed_distance has units "m/s,m".
+func writeCell(buf *bytes.Buffer, s string) {
+	if !strings.ContainsAny(s, ",\"") {
+		buf.WriteString(s)
+		return
+	}
+	buf.WriteByte('"')
+	buf.WriteString(strings.ReplaceAll(s, "\"", "\"\""))
+	buf.WriteByte('"')
+}
+
 func formatUnknown(num int) string {
 	return "unknown(" + strconv.Itoa(num) + ")"
 }
@@ -321,7 +333,7 @@ func (c *FITToCSVConv) writeMesgDef(mesgDef proto.MessageDefinition) {
 			name = formatUnknown(int(field.Num))
 		}
 
-		c.buf.WriteString(name)
+		writeCell(c.buf, name)
 		c.buf.WriteByte(',')
 
 		c.buf.WriteString(strconv.Itoa(int(fieldDef.Size / fieldDef.BaseType.Size())))
@@ -341,7 +353,7 @@ func (c *FITToCSVConv) writeMesgDef(mesgDef proto.MessageDefinition) {
 		} else if c.options.verbose {
 			name = formatUnknown(int(devFieldDef.Num))
 		}
-		c.buf.WriteString(name)
+		writeCell(c.buf, name)
 		c.buf.WriteByte(',')
 
 		c.buf.WriteString(strconv.Itoa(int(devFieldDef.Size)))
@@ -404,7 +416,7 @@ func (c *FITToCSVConv) writeMesg(mesg proto.Message) {
 			name, units = subField.Name, subField.Units
 		}
 
-		c.buf.WriteString(name)
+		writeCell(c.buf, name)
 
 		if !c.options.printRawValue {
 			value = scaleoffset.ApplyValue(field.Value, field.Scale, field.Offset)
@@ -419,7 +431,7 @@ func (c *FITToCSVConv) writeMesg(mesg proto.Message) {
 		c.buf.WriteString(format(value))
 		c.buf.WriteString("\",")
 
-		c.buf.WriteString(units)
+		writeCell(c.buf, units)
 		c.buf.WriteByte(',')
 
 		fieldCounter++
@@ -438,13 +450,13 @@ func (c *FITToCSVConv) writeMesg(mesg proto.Message) {
 			name = formatUnknown(int(devField.Num))
 		}
 
-		c.buf.WriteString(name)
+		writeCell(c.buf, name)
 
 		c.buf.WriteString(",\"")
 		c.buf.WriteString(format(devField.Value))
 		c.buf.WriteString("\",")
 
-		c.buf.WriteString(units)
+		writeCell(c.buf, units)
 		c.buf.WriteByte(',')
 
 		fieldCounter++
